@@ -46,3 +46,11 @@ Theorem C11_wrong_type_needs_rejected_refuted :
     conv_at [KS "workflowAttributes"; KS "aggregate"] (VStr "yes") = Some (VBool true).
 Proof. exists ex_wf. vm_compute. repeat split; reflexivity. Qed.
 Print Assumptions C11_wrong_type_needs_rejected_refuted.
+
+(* the exception of C11_scalar_float_rejected / C11_float_for_int_option_rejected is necessary: the repeat interval is
+   converted with int() like the other int options, but its schema also admits a float, so a float there is not a
+   wrongly typed value (it is left alone by the conversion and accepted by the schema).  Not a defect. *)
+Theorem C11_float_for_int_needs_exception_refuted :
+  exists p r, In p int_options /\ wrong_rejected component_full p (VFlt r) = false.
+Proof. exists p_repeat_interval, "2.5". split; [vm_compute; tauto | vm_compute; reflexivity]. Qed.
+Print Assumptions C11_float_for_int_needs_exception_refuted.
